@@ -104,6 +104,14 @@ type RunObs struct {
 	Emit2  map[string]string `json:"emit2,omitempty"`
 	MClass string            `json:"mclass,omitempty"`
 	MMsg   string            `json:"mmsg,omitempty"`
+	// the same run through the two other entries of the Runnable: Collect (the input as a one-chunk stream, the
+	// result as a value) and Transform (one-chunk stream in, stream out); first build, first plans
+	CClass  string `json:"cclass,omitempty"`
+	CResult string `json:"cresult,omitempty"`
+	CMsg    string `json:"cmsg,omitempty"`
+	TClass  string `json:"tclass,omitempty"`
+	TResult string `json:"tresult,omitempty"`
+	TMsg    string `json:"tmsg,omitempty"`
 }
 
 type LatObs struct {
@@ -118,6 +126,15 @@ type AsrtObs struct {
 	Ok  bool   `json:"ok"`
 }
 
+// ConcObs: the FIRST calls on a freshly compiled graph, made concurrently (one plan, two through Invoke, the
+// last one through Stream), before any other run of that compiled object
+type ConcObs struct {
+	Plan    int      `json:"plan"`
+	Classes []string `json:"classes"`
+	Results []string `json:"results"`
+	Msgs    []string `json:"msgs,omitempty"`
+}
+
 type BuildObs struct {
 	Lat          []LatObs          `json:"lat,omitempty"`  // lattice case only
 	Asrt         []AsrtObs         `json:"asrt,omitempty"` // lattice case only
@@ -127,6 +144,7 @@ type BuildObs struct {
 	SharedBranch bool              `json:"shared_branch,omitempty"` // one *GraphBranch value was handed to two AddBranch calls
 	Infer        map[string]string `json:"infer,omitempty"`         // passthrough node -> type name ("" = nil)
 	Runs         []RunObs          `json:"runs,omitempty"`
+	Conc         *ConcObs          `json:"conc,omitempty"`
 }
 
 type runPlan struct {
@@ -258,7 +276,7 @@ func short(s string) string {
 
 // build constructs the graph from scratch, applies every op, and runs the plans on the
 // runnable of the last Compile if that one succeeded.
-func build(c *Case, plans []runPlan, extra bool) (bo BuildObs) {
+func build(c *Case, plans []runPlan, extra bool, concPlan int) (bo BuildObs) {
 	ctx := context.Background()
 	var gopts []compose.NewGraphOption
 	switch c.State {
@@ -422,6 +440,50 @@ func build(c *Case, plans []runPlan, extra bool) (bo BuildObs) {
 			}
 		}
 	}
+	// the first calls on this compiled object, made concurrently: whatever the compiled graph sets up at its first
+	// use (and whatever its run-time checks share between calls) must not depend on which call comes first
+	if concPlan >= 0 && concPlan < len(plans) {
+		pl := plans[concPlan]
+		for k, v := range pl.emit {
+			cur[k] = v
+		}
+		in := valueOf(pl.input)
+		const nconc = 4
+		type cres struct{ class, result, msg string }
+		outs := make([]chan cres, nconc)
+		start := make(chan struct{})
+		run := inv
+		for j := 0; j < nconc; j++ {
+			j := j
+			outs[j] = make(chan cres, 1)
+			go func() {
+				<-start
+				var o any
+				var err error
+				p := lib.Recover(func() { o, err = run(ctx, in, j == nconc-1) })
+				cl, msg := classify(p, err)
+				r := cres{class: cl, msg: short(msg)}
+				if cl == "ok" {
+					r.result = dynOf(o)
+				}
+				outs[j] <- r
+			}()
+		}
+		close(start)
+		deadline := time.After(60 * time.Second) // slowness is not an alarm, a deadlock is
+		co := &ConcObs{Plan: concPlan}
+		for j := 0; j < nconc; j++ {
+			r := cres{class: "hang"}
+			select {
+			case r = <-outs[j]:
+			case <-deadline:
+			}
+			co.Classes = append(co.Classes, r.class)
+			co.Results = append(co.Results, r.result)
+			co.Msgs = append(co.Msgs, r.msg)
+		}
+		bo.Conc = co
+	}
 	for _, pl := range plans {
 		for k := range cur {
 			delete(cur, k)
@@ -573,6 +635,13 @@ func build(c *Case, plans []runPlan, extra bool) (bo BuildObs) {
 			unreported("")
 		}
 		ro.SClass, ro.SResult, ro.SMsg = once(true)
+		if extra && len(bo.Runs) < 4 {
+			inputVal = u.CollectIn{Val: valueOf(pl.input)}
+			ro.CClass, ro.CResult, ro.CMsg = once(true)
+			inputVal = u.Multi{Vals: []any{valueOf(pl.input)}}
+			ro.TClass, ro.TResult, ro.TMsg = once(true)
+			inputVal = valueOf(pl.input)
+		}
 		// multi-chunk streams: every chunk of an interface-typed stream is a value of its own dynamic type
 		if extra && len(bo.Runs) < 4 {
 			if m2 := secondChunks(c, pl); len(m2) > 0 {
@@ -1072,8 +1141,22 @@ func (engine) Run(ci any) lib.Result {
 	}
 	plans := planRuns(c)
 	obs := make([]BuildObs, buildsFor(c))
+	// every build after the first starts with concurrent first calls on its fresh compile: of the default plan, or
+	// (every other build) of the first plan that the first build saw end in the ordinary type error
 	for i := range obs {
-		obs[i] = build(c, plans, i == 0)
+		cp := -1
+		if i >= 1 {
+			cp = 0
+			if (c.Salt+i)%2 == 0 {
+				for k, r := range obs[0].Runs {
+					if r.Class == "type_err" {
+						cp = k
+						break
+					}
+				}
+			}
+		}
+		obs[i] = build(c, plans, i == 0, cp)
 	}
 	bo := &obs[0]
 	res := lib.Result{Obs: bo}
@@ -1142,12 +1225,52 @@ func (engine) Run(ci any) lib.Result {
 			case r.SClass == "ok" && r.Class == "ok" && r.SResult != r.Result:
 				fail("invoke-stream-result-differ", fmt.Sprintf("accepted graph: run %d (input %s, emit %v): Invoke returns %s, Stream returns %s", k, r.Input, r.Emit, r.Result, r.SResult))
 			}
+			// the Collect and Transform entries: the same rules as for Stream
+			for _, e := range []struct{ name, class, result, msg string }{{"Collect", r.CClass, r.CResult, r.CMsg}, {"Transform", r.TClass, r.TResult, r.TMsg}} {
+				switch {
+				case e.class == "":
+				case e.class == "panic_esc" || e.class == "panic_rec" || e.class == "hang":
+					if r.Class != e.class {
+						fail("stream-panic", fmt.Sprintf("accepted graph: run %d (input %s, emit %v) through %s: %s (%s); Invoke gives %s/%s", k, r.Input, r.Emit, e.name, e.class, e.msg, r.Class, r.Result))
+					}
+				case r.Class == "ok" && e.class != "ok":
+					fail("stream-fails-invoke-ok", fmt.Sprintf("accepted graph: run %d (input %s, emit %v): Invoke returns %s, %s fails: %s (%s)", k, r.Input, r.Emit, r.Result, e.name, e.class, e.msg))
+				case r.Class == "ok" && e.result != r.Result:
+					fail("invoke-stream-result-differ", fmt.Sprintf("accepted graph: run %d (input %s, emit %v): Invoke returns %s, %s returns %s", k, r.Input, r.Emit, r.Result, e.name, e.result))
+				}
+			}
 			switch r.Class {
 			case "type_err":
 				if !typeErrJustified(c, b, r) {
 					fail("spurious-type-error", fmt.Sprintf("run %d (input %s, emit %v) failed with a run-time type error although every emitted value is assignable to every consumer it can reach: %s", k, r.Input, r.Emit, r.Msg))
 				}
 			}
+		}
+	}
+	// concurrent first calls on a fresh compile (every build after the first) against the same plan run alone (build 0)
+	concTag := ""
+	for bi := 1; bi < len(obs); bi++ {
+		co := obs[bi].Conc
+		if co == nil || !bo.Compiled || co.Plan >= len(bo.Runs) {
+			continue
+		}
+		ref := &bo.Runs[co.Plan]
+		for j, cl := range co.Classes {
+			stream := j == len(co.Classes)-1
+			bad := cl == "panic_esc" || cl == "panic_rec" || cl == "hang"
+			if stream {
+				// lazily checked: only a panic / hang that the run alone does not show is judged
+				if bad && cl != ref.SClass {
+					fail("concurrent-first-calls", fmt.Sprintf("accepted graph, freshly compiled (build %d), %d concurrent first calls of run %d (input %s, emit %v): the call through Stream ends in %s (%s); alone it gives %s", bi, len(co.Classes), co.Plan, ref.Input, ref.Emit, cl, co.Msgs[j], ref.SClass))
+				}
+				continue
+			}
+			if cl != ref.Class || co.Results[j] != ref.Result {
+				fail("concurrent-first-calls", fmt.Sprintf("accepted graph, freshly compiled (build %d), %d concurrent first calls of run %d (input %s, emit %v): Invoke call %d gives %s/%s (%s); the same run alone gives %s/%s: whether a value is checked must not depend on which call comes first", bi, len(co.Classes), co.Plan, ref.Input, ref.Emit, j, cl, co.Results[j], co.Msgs[j], ref.Class, ref.Result))
+			}
+		}
+		if concTag == "" || ref.Class == "type_err" {
+			concTag = "concfirst:" + ref.Class
 		}
 	}
 	// order independence against the reference order (concrete universes only)
@@ -1157,7 +1280,7 @@ func (engine) Run(ci any) lib.Result {
 		ref.Ops = append([]Op(nil), c.Ops...)
 		sort.SliceStable(ref.Ops, func(i, j int) bool { return ref.Ops[i].ID < ref.Ops[j].ID })
 		if respectsNodeFirst(ref.Ops) {
-			rb := build(&ref, plans, false)
+			rb := build(&ref, plans, false, -1)
 			if d := sameBuild(bo, &rb, false); d != "" {
 				fail("order-dependent", "same calls in the reference order give a different verdict: "+d)
 			}
@@ -1244,6 +1367,9 @@ func (engine) Run(ci any) lib.Result {
 	if compilePanic {
 		tags = append(tags, "compile:panic")
 	}
+	if concTag != "" {
+		tags = append(tags, concTag)
+	}
 	// which types of the universe the case mentions (tys) and which of them take part in a graph that compiled (ctys)
 	used := map[string]bool{c.In: true, c.Out: true}
 	for _, o := range c.Ops {
@@ -1302,6 +1428,18 @@ func (engine) Run(ci any) lib.Result {
 			tags = append(tags, "emptymap:yes")
 			break
 		}
+	}
+	ecls := map[string]bool{}
+	for _, r := range bo.Runs {
+		if r.CClass != "" {
+			ecls["collect:"+r.CClass] = true
+		}
+		if r.TClass != "" {
+			ecls["transform:"+r.TClass] = true
+		}
+	}
+	for k := range ecls {
+		tags = append(tags, "entry:"+k)
 	}
 	mcls := map[string]bool{}
 	for _, r := range bo.Runs {
